@@ -759,13 +759,35 @@ func runInterleave(r *vs.Rand, i int, seed uint64, out *vs.Out) {
 			return
 		}
 		k := kids[r.Intn(len(kids))]
-		choice := r.Intn(10)
+		choice := r.Intn(11)
 		if len(orphans) > 0 && r.Chance(35) {
 			// aimed at an adoption: the orphan is taken by the other parent, deleted, replaced or relabelled meanwhile
 			k = orphans[r.Intn(len(orphans))]
 			choice = []int{2, 2, 0, 1, 3}[r.Intn(5)]
 		}
 		switch choice {
+		case 10: // somebody else adds or removes a finalizer of their own on the parent
+			s.Mutate(parentGroup, cfg.parentResource(), nsOfKey(sc.key), "p1", func(o map[string]interface{}) {
+				md := o["metadata"].(map[string]interface{})
+				fs, _ := md["finalizers"].([]interface{})
+				var out []interface{}
+				had := false
+				for _, f := range fs {
+					if f == "example.com/other" {
+						had = true
+						continue
+					}
+					out = append(out, f)
+				}
+				if !had {
+					out = append(out, "example.com/other")
+				}
+				if len(out) == 0 {
+					delete(md, "finalizers")
+				} else {
+					md["finalizers"] = out
+				}
+			})
 		case 9: // somebody else overwrites the parent's status
 			s.Mutate(parentGroup, cfg.parentResource(), nsOfKey(sc.key), "p1", func(o map[string]interface{}) {
 				o["status"] = map[string]interface{}{"replicas": int64(99), "observedGeneration": int64(1)}
